@@ -351,6 +351,8 @@ impl<'a> Read for DynRead<'a> {
 pub fn shim_as_dyn_read<'a, R: Read>(reader: &'a mut R) -> (r: DynRead<'a>)
     ensures r.g_dev() == old(reader).g_dev(), r.g_bytes() == old(reader).g_bytes(), r.g_pos() == old(reader).g_pos(),
         r.g_fault() == old(reader).g_fault(),
+        // whatever is done through the trait object (only Read operations), the reader stays the same device
+        rd_step(old(reader), final(reader)),
 { unimplemented!() }
 
 #[verifier::external_body] #[verifier::accept_recursive_types(R)]
